@@ -136,10 +136,18 @@ Record ref_question := mkRQ { rq_name : list bytes; rq_type : N; rq_class : N }.
 (* [lim]: the limit on the uncompressed length of a name; RFC 1035 says 255 (NAME_LIMIT) *)
 Definition NAME_LIMIT : nat := 255.
 
+(* Rendering rule: names are handed on in presentation form, labels joined by '.', without escapes
+   (RFC 1035 5.1 would write "\." for a dot inside a label).  A name is presentable in that form only
+   if no label contains a '.' octet; a reader that renders names this way must refuse the others
+   (as golang.org/x/net/dns/dnsmessage does since golang/go#56246). *)
+Definition presentable (ls : list bytes) : bool :=
+  forallb (fun l => negb (existsb (fun c => c =? 46) l)) ls.
+Definition name_ok (lim : nat) (ls : list bytes) : bool := Nat.leb (wire_len ls) lim && presentable ls.
+
 Definition ref_question_at (lim : nat) (msg : bytes) (off : nat) : option (ref_question * nat) :=
   match ref_decode msg off with
   | Some (ls, n) =>
-      if Nat.leb (wire_len ls) lim then
+      if name_ok lim ls then
         match u16_at msg n, u16_at msg (n + 2) with
         | Some t, Some c => Some (mkRQ ls t c, (n + 4)%nat)
         | _, _ => None
@@ -154,7 +162,7 @@ Record ref_rr := mkRR { rr_owner : list bytes; rr_type : N; rr_class : N; rr_ttl
 Definition ref_rr_at (lim : nat) (msg : bytes) (off : nat) : option (ref_rr * nat) :=
   match ref_decode msg off with
   | Some (ls, n) =>
-      if Nat.leb (wire_len ls) lim then
+      if name_ok lim ls then
         match u16_at msg n, u16_at msg (n + 2), u32_at msg (n + 4), u16_at msg (n + 8) with
         | Some t, Some c, Some ttl, Some rdl =>
             let nx := (n + 10 + N.to_nat rdl)%nat in
@@ -238,7 +246,7 @@ Definition learn (lim : nat) (msg : bytes) (r : ref_rr) : learned :=
     if Nat.eqb (rr_rdlen r) 16 then LAAAA owner (sub msg (rr_rdoff r) 16) (rr_ttl r) else LBad
   else if rr_type r =? 5 then
     match ref_decode msg (rr_rdoff r) with
-    | Some (ls, _) => if Nat.leb (wire_len ls) lim then LCNAME owner (dotted ls) (rr_ttl r) else LBad
+    | Some (ls, _) => if name_ok lim ls then LCNAME owner (dotted ls) (rr_ttl r) else LBad
     | None => LBad
     end
   else if rr_type r =? 12 then
@@ -246,7 +254,7 @@ Definition learn (lim : nat) (msg : bytes) (r : ref_rr) : learned :=
     | None => LSkip             (* not an IPv4 reverse name: of no use to the cache, RDATA not examined *)
     | Some ip =>
         match ref_decode msg (rr_rdoff r) with
-        | Some (ls, _) => if Nat.leb (wire_len ls) lim then LPTR (dotted ls) ip (rr_ttl r) else LBad
+        | Some (ls, _) => if name_ok lim ls then LPTR (dotted ls) ip (rr_ttl r) else LBad
         | None => LBad
         end
     end
